@@ -18,6 +18,9 @@ Definition u8_of_opcode (o : opcode) : N :=
   | OpBad => 8
   end.
 
+(* if let OpCode::Bad = opcode *)
+Definition opcode_is_bad (o : opcode) : bool := match o with OpBad => true | _ => false end.
+
 Inductive perr :=
 | UnmaskedFrame | MaskedFrame | InvalidOpcode (b : N) | InvalidLength (n : N) | BadOpCode | Overflow
 | ContinuationNotStarted | ContinuationStarted | ContinuationFragment (o : opcode).
@@ -60,9 +63,8 @@ Definition parse_metadata (src : bytes) (server : bool) : R (res (option meta)) 
   else if masked && negb server then Val (Err MaskedFrame)
   else
   let opcode := opcode_of_u8 (N.land first 15) in
-  match opcode with
-  | OpBad => Val (Err (InvalidOpcode (N.land first 15)))
-  | _ =>
+  if opcode_is_bad opcode then Val (Err (InvalidOpcode (N.land first 15)))
+  else
     let len := N.land second 127 in
     (* None = return Ok(None); Some (length, idx) *)
     let lr : R (option (N * N)) :=
@@ -82,8 +84,7 @@ Definition parse_metadata (src : bytes) (server : bool) : R (res (option meta)) 
         else rbind (slice src idx 4) (fun mask =>
              Val (Ok (Some (idx + 4, finished, opcode, length, Some mask))))
       else Val (Ok (Some (idx, finished, opcode, length, None)))
-    end)
-  end)).
+    end))).
 
 (* BytesMut::advance(cnt) / split_to(at): panic when cnt > len *)
 Definition advance (src : bytes) (cnt : N) : R bytes :=
